@@ -83,6 +83,12 @@ Theorem decoder_total_breakOutputIntoPieces : forall prefix nfiles nchunks,
 Proof. exact total_breakOutputIntoPieces. Qed.
 Print Assumptions decoder_total_breakOutputIntoPieces.
 
+(* stdio protocol decodePacket: it is NOT crash-free (decodePacket_total_refuted below), but for every byte
+   string it terminates: each array/map iteration and each nested visit consumes at least the kind byte *)
+Theorem decodePacket_never_hangs_partial : forall bs, all_bytes bs -> decodePacket bs <> Hang.
+Proof. exact decodePacket_no_hang. Qed.
+Print Assumptions decodePacket_never_hangs_partial.
+
 (* css_lexer.RangeOfIdentifier (range of an identifier for a diagnostic) with the
    end-of-text test in its scan loop: every byte string *)
 Theorem decoder_total_RangeOfIdentifier : total_on all_bytes (RangeOfIdentifier true).
